@@ -181,7 +181,75 @@ def sweep(c, item):
     c.nontrivial(('sweep', gname, via))
 
 
+def effort(c, item):
+    """long gaps between requested time points under a user-set maximum step size hmax: the number of internal steps is
+    about gap / hmax; every gap whose need stays below the documented ceiling (mxstep, default 500000) must be solved"""
+    from bioscrape.simulator import DeterministicSimulator, ModelCSimInterface
+    need, mxstep, route = item
+    hmax = 0.01
+    G = need * hmax
+    times = np.array([0.0, 0.25, G + 0.25, G + 0.5])
+    sp = spec('affine', [A, B, C], {A: 3.0, B: 1.0, C: 0.0}, [ma([], [A], 1.0), ma([A], [B], 0.07), ma([B], [C], 0.13), ma([C], [], 0.04), ma([B], [A], 0.02)])
+    m = to_model(sp)
+    c.count('states'); c.count('evaluations'); c.count('traces'); c.count('transitions', len(times))
+    ref = reference(sp, times)
+    case = dict(spec=dict(name='effort'), need=need, mxstep=mxstep, route=route)
+    iface = ModelCSimInterface(m)
+    iface.py_prep_deterministic_simulation()
+    sim = DeterministicSimulator()
+    if mxstep:
+        sim.py_set_mxstep(mxstep)
+    if route == 'setter':
+        sim.py_set_hmax(hmax)
+        out = np.asarray(sim.py_simulate(iface, times).py_get_result())
+    else:
+        out = np.asarray(sim.py_simulate(iface, times, hmax=hmax).py_get_result())
+    order = m.get_species_list()
+    if out.ndim == 2 and out.shape[1] == len(order):
+        out = out[:, [order.index(s_) for s_ in sp['species']]]
+    err = np.abs(out - ref) / (1.0 + np.abs(ref)) if out.shape == ref.shape else None
+    if err is None or not np.all(np.isfinite(out)) or err.max() > TOL:
+        c.violation('C04/effort/%s/trajectory' % route, 'a gap that needs about %d internal steps (hmax %s, step ceiling %s): simulated %s, exact %s' % (
+            need, hmax, mxstep or 'default 500000', out[-1].tolist() if out.ndim == 2 else out.shape, ref[-1].tolist()), case)
+        return
+    c.nontrivial(('effort', need, mxstep, route))
+
+
+def tolerances(c, item):
+    """user-set tolerances (atol, rtol) that differ, on states far from magnitude 1: the error stays within 200 (atol + rtol |x|)"""
+    from bioscrape.simulator import DeterministicSimulator, ModelCSimInterface
+    atol, rtol, scale, how = item
+    sp = spec('affine', [A, B, C], {A: 3.0 * scale, B: 1.0 * scale, C: 0.0}, [ma([A], [B], 0.7), ma([B], [C], 1.3), ma([C], [], 0.4), ma([B], [A], 0.2)])
+    times = np.array(GRIDS['u025'])
+    m = to_model(sp)
+    iface = ModelCSimInterface(m)
+    iface.py_prep_deterministic_simulation()
+    sim = DeterministicSimulator()
+    c.count('states'); c.count('evaluations'); c.count('traces'); c.count('transitions', len(times))
+    if how == 'setter':
+        sim.py_set_tolerance(atol, rtol)
+        out = np.asarray(sim.py_simulate(iface, times).py_get_result())
+    else:
+        out = np.asarray(sim.py_simulate(iface, times, atol=atol, rtol=rtol).py_get_result())
+    order = m.get_species_list()
+    out = out[:, [order.index(s_) for s_ in sp['species']]]
+    ref = reference(sp, times)
+    band = 200.0 * (atol + rtol * np.abs(ref))
+    bad = np.abs(out - ref) > band
+    if out.shape != ref.shape or not np.all(np.isfinite(out)) or bad.any():
+        kk = np.unravel_index(np.argmax(np.abs(out - ref) / band), ref.shape)
+        c.violation('C04/tolerance/%s/trajectory' % how, 'atol=%g rtol=%g states ~%g: error %.3g at t=%s, allowed %.3g' % (
+            atol, rtol, scale, abs(out[kk] - ref[kk]), times[kk[0]], band[kk]), dict(spec=dict(name='tolerance'), atol=atol, rtol=rtol, scale=scale, how=how))
+        return
+    c.nontrivial(('tolerance', atol, rtol, scale, how))
+
+
 def run(ctx):
+    eff = [(n_, 0, r_) for n_ in ((300, 2000, 20000, 80000) if ctx.quick else (300, 2000, 4000, 20000, 45000, 80000, 300000)) for r_ in ('setter', 'keyword')]
+    eff += [(2000, 5000, 'setter'), (20000, 50000, 'keyword'), (2000, 2500, 'setter')] + ([] if ctx.quick else [(4000, 5000, 'keyword'), (30000, 40000, 'setter')])
+    pmap(effort, eff, ctx, nshards=len(eff))
+    tl = [(a_, r_, sc, how) for (a_, r_, sc) in ((1e-13, 1e-6, 1e-6), (1e-4, 1e-12, 1e3), (1e-10, 1e-10, 1.0), (1e-12, 1e-5, 1e-4)) for how in ('setter', 'keywords')]
+    pmap(tolerances, tl, ctx, nshards=len(tl))
     pmap(sweep, [(g, via) for g in ('u025', 'geo', 'two') for via in ('interface', 'entry-interface', 'model')], ctx, nshards=9)
     models = affine_models(ctx.tier) + nonlinear_models(ctx.tier)
     grids = ['u025', 'geo', 'two'] if ctx.quick else list(GRIDS)
@@ -189,19 +257,23 @@ def run(ctx):
              if sp['name'] != 'affine' or ctx.tier == 'thorough' or (i + gi) % 3 == 0 or gi == 0]
     pmap(check, items, ctx, nshards=256)
     ctx.exhaustive = True
-    ctx.bounds = dict(models=len(models), grids=grids, runs=len(items), tolerance='1e-5*(1+|x|)')
+    ctx.bounds = dict(models=len(models), grids=grids, runs=len(items), tolerance='1e-5*(1+|x|)', effort_cases=eff, tolerance_cases=len(tl))
     ctx.rule = ('E2: (a) every affine network assembled from <= 3 reactions of a 9-reaction menu (sources, sinks, conversions, catalytic and '
                 'double production, two delayed reactions) x rate alphabet {0.3,1,2.5} x initial alphabet {0,1,4.5}^3 (strided as stated in '
                 'the bounds), reference = augmented matrix exponential; (b) 13 non-linear families (bimolecular, dimer, third and fourth order '
                 'with repeats, four Hill families, rational, explicitly time-dependent, delayed non-linear) x rates x initial states, '
                 'reference = DOP853 at rtol 1e-12 on the reference right-hand side; (c) uniform, geometric (with a repeated tiny gap) and '
-                'two-point grids from 0. Both entry points, plus a second run / a re-prepared run / an entry-point run on the same interface object, and a parameter sweep (Model.set_params) on one kept Model and interface. Oracle: first row is the initial condition exactly; every row within '
+                'two-point grids from 0. Both entry points, plus a second run / a re-prepared run / an entry-point run on the same interface object, and a parameter sweep (Model.set_params) on one kept Model and interface; (d) a linear network under a user-set maximum step size (setter and keyword) across gaps that need 300..80000 (thorough 300000) internal steps, with the default step ceiling and with user-set ceilings above the need; (e) user-set tolerances (setter and keywords) that differ from each other on states of magnitude 1e-6..1e3, error within 200 (atol + rtol |x|). Oracle: first row is the initial condition exactly; every row within '
                 '1e-5*(1+|x|). states = (model, grid) runs.')
     ctx.assumptions = ['finite family of well-posed non-stiff models; continuous parameter domains are represented by the alphabets only',
                        'odeint runs at atol=rtol=1.49e-8, the band is >100x that']
 
 
 def replay(ctx, case):
+    if case['spec'].get('name') == 'effort':
+        return effort(ctx, (case['need'], case['mxstep'], case['route']))
+    if case['spec'].get('name') == 'tolerance':
+        return tolerances(ctx, (case['atol'], case['rtol'], case['scale'], case['how']))
     if case['spec'].get('name') == 'sweep':
         return sweep(ctx, (case['grid'], case['via']))
     check(ctx, (case['spec'], case['grid']))
